@@ -53,6 +53,13 @@ func (ex *Exec) specHere(pos token.Pos) *specCtx {
 	for k, v := range ex.paramVals {
 		sc.vars["old_"+k] = v
 	}
+	if ex.fc != nil && len(ex.code) <= 1 {
+		for _, gn := range ex.fc.GhostNames {
+			if v, ok := ex.paramVals[gn]; ok {
+				sc.vars[gn] = v
+			}
+		}
+	}
 	return sc
 }
 
@@ -364,7 +371,7 @@ func (ex *Exec) specLoadVar(sc *specCtx, v *types.Var) (Val, bool) {
 	}
 	t := sc.st.env[key]
 	if t == nil {
-		if pv, ok := ex.paramVals[v.Name()]; ok && len(ex.inlineStack) <= 1 {
+		if pv, ok := ex.paramVals[v.Name()]; ok && len(ex.code) <= 1 {
 			return pv, true
 		}
 		ex.specErr(sc, "variable %s has no value in this state", v.Name())
